@@ -36,7 +36,7 @@ ASSUMPTIONS = ["host is little-endian", "regions lie inside the image (GRwriteim
                "an image receives its first write in the session that created it (a partial first write in a later "
                "session is rejected by the library: fill_img is a per-session flag of GRcreate)",
                "compressed, non-chunked images are written by one GRwriteimage call and then only read",
-               "GRwritechunk / GRreadchunk are not driven",
+               "GRwritechunk / GRreadchunk are driven for chunk lengths that divide the image dimensions",
                "an old-style compressed raster (DFTAG_RLE) is rewritten through GR only with data of the same "
                "compressed size (it is recompressed in place and cannot grow; a larger image makes GRend FAIL)"]
 
@@ -402,6 +402,46 @@ def gen_late_lut_history(r, hid, stats):
     return ops
 
 
+def gen_chunk_history(r, hid, stats):
+    """GRwritechunk / GRreadchunk mixed with region access; chunk lengths divide the image dimensions"""
+    ops = ["H %d" % hid]
+    im = Img(r, 0)
+    ops.append(op_create(im))
+    if r.random() < 0.6:
+        ops.append(op_fill(r, im))
+    c0 = r.choice([d for d in range(1, im.x + 1) if im.x % d == 0])
+    c1 = r.choice([d for d in range(1, im.y + 1) if im.y % d == 0])
+    ct = r.choice([0, 0, 1, 3, 4])
+    ops.append("K 0 %d %d %d %d" % (c0, c1, ct, {0: 0, 1: 0, 3: 2, 4: 6}[ct]))
+    im.store = "chunk%d" % ct
+    n = c0 * c1 * im.psz()
+    stats["chunk_store_%d" % ct] += 1
+    for _ in range(r.randrange(4, 11)):
+        c = r.random()
+        o0, o1 = r.randrange(im.x // c0), r.randrange(im.y // c1)
+        if c < 0.3:
+            ops.append("X 0 %d %d %d %d %d %s" % (c0, c1, o0, o1, n, " ".join(map(str, rand_bytes(r, n)))))
+            stats["chunk_write"] += 1
+            stats["chunk_wil_%d" % im.il] += 1
+        elif c < 0.55:
+            ops.append("Y 0 %d %d %d %d %d" % (c0, c1, o0, o1, n))
+            stats["chunk_read"] += 1
+        elif c < 0.65:
+            ops.append(op_write(r, im, rand_region(r, im)))
+        elif c < 0.8:
+            ops.append(op_read(im, rand_region(r, im)))
+        elif c < 0.9:
+            ops.append("I 0 %d" % r.randrange(3))
+        else:
+            ops.append("E")
+            im.il = 0
+    ops.append("E")
+    ops.append("I 0 %d" % r.randrange(3))
+    ops.append("Y 0 %d %d %d %d %d" % (c0, c1, r.randrange(im.x // c0), r.randrange(im.y // c1), n))
+    ops.append(op_read(im, (0, 0, 1, 1, im.x, im.y)))
+    return ops
+
+
 class Stats(dict):
     def __missing__(self, k):
         return 0
@@ -419,17 +459,19 @@ def gen_histories(ctx):
             hid += 1
     for i in range(n):
         c = r.random()
-        if c < 0.62:
+        if c < 0.56:
             hs.append(gen_image_history(r, hid, stats))
-        elif c < 0.68:
+        elif c < 0.61:
             hs.append(gen_lut_history(r, hid, stats))
-        elif c < 0.78:
+        elif c < 0.70:
             hs.append(gen_late_lut_history(r, hid, stats))
-        elif c < 0.88:
+        elif c < 0.80:
             hs.append(gen_legacy_history(r, hid, stats))
-        elif c < 0.92:
+        elif c < 0.83:
             hs.append(gen_rle_history(r, hid, stats))
-        elif c < 0.97:
+        elif c < 0.91:
+            hs.append(gen_chunk_history(r, hid, stats))
+        elif c < 0.96:
             hs.append(gen_conv_history(r, hid, stats))
         else:
             hs.append(gen_malformed_history(r, hid, stats))
@@ -537,7 +579,7 @@ def compare_history(h, r_lines, ms_lines):
             continue
         if sres != "-":
             ncmp += 1
-            if op in "RPVU" and sres.startswith("ok "):
+            if op in "RPVUY" and sres.startswith("ok "):
                 ntr += 1
             if rres != sres and rs is None:
                 rs = (i, opline, rres, mres, sres)
@@ -624,7 +666,7 @@ def check_batch(ctx, hists, tag, stats):
         stats["ops"] += len(h)
         stats["compared_results"] += ncmp
         for i, opline in enumerate(h):
-            if opline[:1] in "RWPVGOU":
+            if opline[:1] in "RWPVGOUXY":
                 ctx.case((opline,), nontrivial=True,
                          sample=({"history": h[0], "op": opline[:100], "lib": (r_lines[i][:100] if i < len(r_lines) else "")}
                                  if (n % 53 == 0 and opline[:1] == "R") else None))
